@@ -476,33 +476,13 @@ impl Decompressor {
             return Ok(ref_data.clone());
         }
 
-        let archive_version = ragc_common::AGC_FILE_MAJOR * 1000 + ragc_common::AGC_FILE_MINOR;
-        let ref_stream_name = stream_ref_name(archive_version, group_id);
-        let stream_id = self
-            .archive
-            .get_stream_id(&ref_stream_name)
-            .ok_or_else(|| anyhow!("Reference stream not found: {}", ref_stream_name))?;
-
-        let (mut data, metadata) = self.archive.get_part_by_id(stream_id, 0)?;
-        // Decompress if needed; metadata holds original length for packed format
-        let decompressed = if data.is_empty() {
-            Vec::new()
-        } else if data.last() == Some(&0) {
-            // Plain ZSTD stream with marker 0
-            data.pop();
-            decompress_segment_with_marker(&data, 0)?
-        } else {
-            // Tuple-packed with marker 1
-            let marker = data.pop().unwrap();
-            decompress_segment_with_marker(&data, marker)?
-        };
-
-        // Unpack 2-bit encoded reference to 1-byte bases if needed
-        // decompress_segment_with_marker returns bytes in the stored format for references
-        // Our helper already returns decompressed raw bytes for references
-        let reference = decompressed;
-        self.segment_cache.insert(group_id, reference.clone());
-        Ok(reference)
+        // Same loader as segment extraction, so the cached value (and the answer) does not
+        // depend on which query touched this group first.
+        self.load_reference(group_id)?;
+        self.segment_cache
+            .get(&group_id)
+            .cloned()
+            .ok_or_else(|| anyhow!("Reference not loaded for group {group_id}"))
     }
 
     /// Extract all contigs from a sample
@@ -699,6 +679,86 @@ impl Decompressor {
         )
     }
 
+    /// Load (decompress, unpack) the reference segment of an LZ group into the cache.
+    /// This is the only place that fills `segment_cache`.
+    fn load_reference(&mut self, group_id: u32) -> Result<()> {
+        if self.segment_cache.contains_key(&group_id) {
+            return Ok(());
+        }
+        let archive_version = AGC_FILE_MAJOR * 1000 + AGC_FILE_MINOR;
+
+        // Load reference from ref stream (part 0)
+        let ref_stream_name = stream_ref_name(archive_version, group_id);
+        let ref_stream_id = self
+            .archive
+            .get_stream_id(&ref_stream_name)
+            .ok_or_else(|| anyhow!("Reference stream not found: {ref_stream_name}"))?;
+
+        let (mut ref_data, ref_metadata) = self.archive.get_part_by_id(ref_stream_id, 0)?;
+
+        // Decompress if needed
+        let mut decompressed_ref = if ref_metadata == 0 {
+            ref_data
+        } else {
+            if ref_data.is_empty() {
+                anyhow::bail!("Empty compressed reference data");
+            }
+            let marker = ref_data.pop().unwrap();
+            decompress_segment_with_marker(&ref_data, marker)?
+        };
+
+        // Check if data is in 2-bit packed format (C++ AGC compatibility)
+        // If decompressed length is ~1/4 of raw_length, it's packed
+        // Allow small tolerance for rounding (last byte can encode 1-4 bases)
+        //
+        // CRITICAL: Use ref_metadata (original reference size) NOT desc.raw_length (requested segment size)
+        // When ref_metadata != 0, it contains the original uncompressed size of the REFERENCE.
+        // desc.raw_length is the size of the segment being requested, which may differ from the reference.
+        let expected_ref_len = if ref_metadata != 0 {
+            ref_metadata as usize
+        } else {
+            // If ref_metadata == 0, the reference was stored uncompressed, so use actual size
+            decompressed_ref.len()
+        };
+
+        let is_packed = decompressed_ref.len() * 4 >= expected_ref_len
+            && decompressed_ref.len() * 4 < expected_ref_len + 8;
+
+        if self.config.verbosity > 2 {
+            eprintln!(
+                "  DEBUG: decompressed_len={}, expected_ref_len={}, decompressed*4={}, is_packed={}",
+                decompressed_ref.len(),
+                expected_ref_len,
+                decompressed_ref.len() * 4,
+                is_packed
+            );
+        }
+
+        if is_packed {
+            // Unpack from 2-bit format to 1-byte-per-base format
+            decompressed_ref = Self::unpack_2bit(&decompressed_ref, expected_ref_len);
+
+            if self.config.verbosity > 1 {
+                eprintln!(
+                    "Loaded & unpacked reference for group {}: length={} (was {} bytes packed)",
+                    group_id,
+                    decompressed_ref.len(),
+                    decompressed_ref.len() / 4
+                );
+            }
+        } else if self.config.verbosity > 1 {
+            eprintln!(
+                "Loaded reference for group {}: length={} (already unpacked)",
+                group_id,
+                decompressed_ref.len()
+            );
+        }
+
+        // Cache the reference
+        self.segment_cache.insert(group_id, decompressed_ref);
+        Ok(())
+    }
+
     /// Get a single segment (handles reference and LZ diff decoding)
     /// Supports packed-contig mode where multiple contigs are stored in one part
     ///
@@ -723,77 +783,7 @@ impl Decompressor {
             // LZ group: two-stream architecture
 
             // First, ensure we have the reference loaded
-            if !self.segment_cache.contains_key(&desc.group_id) {
-                // Load reference from ref stream (part 0)
-                let ref_stream_name = stream_ref_name(archive_version, desc.group_id);
-                let ref_stream_id = self
-                    .archive
-                    .get_stream_id(&ref_stream_name)
-                    .ok_or_else(|| anyhow!("Reference stream not found: {ref_stream_name}"))?;
-
-                let (mut ref_data, ref_metadata) = self.archive.get_part_by_id(ref_stream_id, 0)?;
-
-                // Decompress if needed
-                let mut decompressed_ref = if ref_metadata == 0 {
-                    ref_data
-                } else {
-                    if ref_data.is_empty() {
-                        anyhow::bail!("Empty compressed reference data");
-                    }
-                    let marker = ref_data.pop().unwrap();
-                    decompress_segment_with_marker(&ref_data, marker)?
-                };
-
-                // Check if data is in 2-bit packed format (C++ AGC compatibility)
-                // If decompressed length is ~1/4 of raw_length, it's packed
-                // Allow small tolerance for rounding (last byte can encode 1-4 bases)
-                //
-                // CRITICAL: Use ref_metadata (original reference size) NOT desc.raw_length (requested segment size)
-                // When ref_metadata != 0, it contains the original uncompressed size of the REFERENCE.
-                // desc.raw_length is the size of the segment being requested, which may differ from the reference.
-                let expected_ref_len = if ref_metadata != 0 {
-                    ref_metadata as usize
-                } else {
-                    // If ref_metadata == 0, the reference was stored uncompressed, so use actual size
-                    decompressed_ref.len()
-                };
-
-                let is_packed = decompressed_ref.len() * 4 >= expected_ref_len
-                    && decompressed_ref.len() * 4 < expected_ref_len + 8;
-
-                if self.config.verbosity > 2 {
-                    eprintln!(
-                        "  DEBUG: decompressed_len={}, expected_ref_len={}, decompressed*4={}, is_packed={}",
-                        decompressed_ref.len(),
-                        expected_ref_len,
-                        decompressed_ref.len() * 4,
-                        is_packed
-                    );
-                }
-
-                if is_packed {
-                    // Unpack from 2-bit format to 1-byte-per-base format
-                    decompressed_ref = Self::unpack_2bit(&decompressed_ref, expected_ref_len);
-
-                    if self.config.verbosity > 1 {
-                        eprintln!(
-                            "Loaded & unpacked reference for group {}: length={} (was {} bytes packed)",
-                            desc.group_id,
-                            decompressed_ref.len(),
-                            decompressed_ref.len() / 4
-                        );
-                    }
-                } else if self.config.verbosity > 1 {
-                    eprintln!(
-                        "Loaded reference for group {}: length={} (already unpacked)",
-                        desc.group_id,
-                        decompressed_ref.len()
-                    );
-                }
-
-                // Cache the reference
-                self.segment_cache.insert(desc.group_id, decompressed_ref);
-            }
+            self.load_reference(desc.group_id)?;
 
             // If this IS the reference (in_group_id == 0), return it directly
             if desc.in_group_id == 0 {
